@@ -584,9 +584,12 @@ hwloc__xml_import_userdata(hwloc_topology_t topology,
   if (!topology->userdata_import_cb) {
     const char *buffer;
     size_t reallength = encoded ? BASE64_ENCODED_LENGTH(length) : length;
-    ret = state->global->get_content(state, &buffer, reallength);
-    if (ret < 0)
-      return -1;
+    /* empty userdata may be exported as an empty tag without content */
+    if (reallength) {
+      ret = state->global->get_content(state, &buffer, reallength);
+      if (ret < 0)
+	return -1;
+    }
 
   } else if (topology->userdata_not_decoded) {
       const char *buffer;
